@@ -185,3 +185,27 @@ Proof.
 Qed.
 
 End IntPrims.
+
+(* the ephemeral integer constant: static_cast<int>(fetch_param()) is defined
+   (no out-of-range conversion) exactly when the truncated parameter fits *)
+Section IntNumber.
+Variable lm : libm.
+Definition par_stub (p : f64) : stub :=
+  {| s_arg := fun _ => None; s_par := Some p; s_var := fun _ => None |}.
+Lemma number_ok p z : F64.to_Z_trunc p = Some z -> is32 z ->
+  run_stub (strategy_of lm int_number_body) (par_stub p) = Val (VInt z).
+Proof.
+  unfold is32, i32_min, i32_max. intros Hp Hz.
+  cbv -[F64.to_Z_trunc Z.leb andb]. rewrite Hp.
+  cbv -[Z.leb andb].
+  destruct ((-2147483648 <=? z) && (z <=? 2147483647)) eqn:E; [reflexivity|exfalso; lia].
+Qed.
+Lemma number_out_of_range_stuck p z : F64.to_Z_trunc p = Some z -> ~ is32 z ->
+  run_stub (strategy_of lm int_number_body) (par_stub p) = Stuck.
+Proof.
+  unfold is32, i32_min, i32_max. intros Hp Hz.
+  cbv -[F64.to_Z_trunc Z.leb andb]. rewrite Hp.
+  cbv -[Z.leb andb].
+  destruct ((-2147483648 <=? z) && (z <=? 2147483647)) eqn:E; [exfalso; lia|reflexivity].
+Qed.
+End IntNumber.
